@@ -538,16 +538,16 @@ func buildOffline(docs []docSpec, batchSize, ver int) (path string, failure stri
 
 // variant is one set of answers of one recipe, to be compared with the canonical ones
 type variant struct {
-	name      string
-	class     string // recipe class (known-finding key)
-	got       *answers
-	err       string // could not be built / opened
-	merged    bool   // the build contains a merged segment
-	noScores  bool   // scores are not comparable by construction (MultiSearch: per-index statistics)
-	skipNone  bool
-	onlyNone  bool
-	errKey    string // key to use when err is set (designated known findings)
-	segments  int
+	name     string
+	class    string // recipe class (known-finding key)
+	got      *answers
+	err      string // could not be built / opened
+	merged   bool   // the build contains a merged segment
+	noScores bool   // scores are not comparable by construction (MultiSearch: per-index statistics)
+	skipNone bool
+	onlyNone bool
+	errKey   string // key to use when err is set (designated known findings)
+	segments int
 }
 
 type verdict struct {
